@@ -65,7 +65,7 @@ def run_case(case, ctx):
                 ctx.label("second construction from the cached table compared")
                 if "table" in o:      # the first construction succeeded
                     same = "raises" not in sec and sec.get("table") == o["table"] and \
-                        sec.get("conflicts") == o["conflicts"]
+                        sec.get("conflicts") == o["conflicts"] and sec.get("forests") == o.get("forests")
                 else:                 # it reported conflicts
                     same = "raises" in sec and sec.get("conflicts") == o["conflicts"]
                 if not same:
